@@ -9,8 +9,9 @@ pub assume_specification<T, F: FnOnce(T) -> bool>[ Option::<T>::is_some_and ](o:
 
 // ---- T5 wrappers on `slice.iter().filter(p)` (= VpFilter of prelude/hof.rs: the iterator paired with the
 // filter closure).  The external body IS the call to the real std methods.
-/// position of the element that decided the result (a skolem function instead of an existential)
-pub uninterp spec fn vp_hit<T, R>(s: Seq<T>, r: R) -> int;
+/// position of the element that decided the result: a skolem function (of everything the position depends on:
+/// the elements, both closures, the result) instead of an existential
+pub uninterp spec fn vp_hit<T, P, F, R>(s: Seq<T>, p: P, f: F, r: R) -> int;
 impl<'a, T, P: FnMut(&&'a T) -> bool> VpFilter<'a, T, P> {
     /// `slice.iter().filter(p).any(f)`: true iff some element is accepted by p and then by f
     /// (elements are visited in order, p first; nothing else is observable for pure closures)
@@ -21,7 +22,7 @@ impl<'a, T, P: FnMut(&&'a T) -> bool> VpFilter<'a, T, P> {
             let s = self.it.remaining();
             let p = self.p;
             if r {
-                let i = vp_hit(s, r);
+                let i = vp_hit(s, p, f, r);
                 0 <= i < s.len() && call_ensures(p, (&s[i],), true) && call_ensures(f, (s[i],), true)
             } else {
                 forall|j: int| 0 <= j < s.len() ==> call_ensures(p, (&#[trigger] s[j],), false) || call_ensures(f, (s[j],), false)
@@ -39,7 +40,7 @@ impl<'a, T, P: FnMut(&&'a T) -> bool> VpFilter<'a, T, P> {
             let p = self.p;
             match r {
                 Some(b) => ({
-                    let i = vp_hit(s, r);
+                    let i = vp_hit(s, p, f, r);
                     0 <= i < s.len() && call_ensures(p, (&s[i],), true) && call_ensures(f, (s[i],), Some(b))
                     && (forall|j: int| 0 <= j < i ==> call_ensures(p, (&#[trigger] s[j],), false) || call_ensures(f, (s[j],), None::<B>))
                 }),
@@ -158,7 +159,7 @@ impl<'a, T: 'a> VpSliceIterExt<'a, T> for core::slice::Iter<'a, T> {
             let s = self.remaining();
             match r {
                 Some(b) => ({
-                    let i = vp_hit(s, r);
+                    let i = vp_hit(s, (), f, r);
                     0 <= i < s.len() && call_ensures(f, (s[i],), Some(b))
                     && (forall|j: int| 0 <= j < i ==> call_ensures(f, (#[trigger] s[j],), None::<B>))
                 }),
@@ -248,7 +249,7 @@ impl<'a, T, P: FnMut(&&'a T) -> bool> VpFilterRev<'a, T, P> {
             let p = self.p;
             match r {
                 Some(b) => ({
-                    let i = vp_hit(s, r);
+                    let i = vp_hit(s, p, f, r);
                     0 <= i < s.len() && call_ensures(p, (&s[i],), true) && call_ensures(f, (s[i],), Some(b))
                     && (forall|j: int| i < j < s.len() ==> call_ensures(p, (&#[trigger] s[j],), false) || call_ensures(f, (s[j],), None::<B>))
                 }),
